@@ -671,12 +671,12 @@ Proof.
   f_equal. lia.
 Qed.
 
-(* erase(pos): contents as std::vector; the returned position and the lifetimes only when nothing has to shift *)
+(* erase(pos): contents, returned position and lifetimes as std::vector *)
 Lemma erase_one_spec tr pos v L : vinv tr v -> 0 <= pos < v_size v ->
   let r := erase_one pos (v, L) in
   let v' := fst (fst r) in let L' := snd (fst r) in
-  vinv tr v' /\ abs v' = zfirstn pos (abs v) ++ zskipn (pos + 1) (abs v) /\ cl_bad L' = cl_bad L /\ v_shift v' = v_shift v /\
-  (pos = v_size v - 1 -> snd r = pos /\ life_ok v L v' L').
+  vinv tr v' /\ abs v' = zfirstn pos (abs v) ++ zskipn (pos + 1) (abs v) /\ snd r = pos /\ cl_bad L' = cl_bad L /\ v_shift v' = v_shift v /\
+  life_ok v L v' L'.
 Proof.
   intros I Hp. unfold erase_one, vl_size, vl_with_size. cbn [fst snd].
   replace (v_size v =? pos) with false by lia.
@@ -687,110 +687,131 @@ Proof.
     split; [exact P1|]. split.
     { rewrite P2. assert (pos = zlen (abs v) - 1) as -> by (rewrite zlen_abs by lia; lia).
       apply removelast_as_erase. rewrite zlen_abs by lia. lia. }
-    split; [exact P3|]. split; [exact P4|]. intros _. split; [lia | exact P5].
+    split; [lia|]. split; [exact P3|]. split; [exact P4|]. exact P5.
   - cbn [fst snd].
-    set (v1 := with_size v (v_size v - 1)).
-    pose proof (move_fwd_spec 1 (Z.to_nat (v_size v - (pos + 1))) pos v1 L (vi_wf _ _ I) ltac:(lia) ltac:(lia)
-                  ltac:(intros j Hj; unfold v1; rewrite valid_idx_with_size; apply (vinv_valid tr); [exact I | lia])) as M.
-    cbv zeta in M. set (r := move_fwd (Z.to_nat (v_size v - (pos + 1))) (pos + 1) pos (v1, L)) in *.
-    destruct M as (S2 & B2 & T2 & F2 & _).
-    assert (I1 : vinv tr v1) by (apply vinv_smaller; [exact I | lia]).
-    split; [eapply vinv_same_store; eauto|].
-    assert (Sz' : v_size (fst r) = v_size v - 1) by (destruct S2 as (_ & X & _); exact X).
+    set (e := v_size v) in *. set (v1 := with_size v (e - 1)).
+    pose proof (move_fwd_spec 1 (Z.to_nat (e - (pos + 1))) pos v1 L (vi_wf _ _ I) ltac:(lia) ltac:(lia)
+                  ltac:(intros j Hj; unfold v1; rewrite valid_idx_with_size; apply (vinv_valid tr); [exact I | unfold e in *; lia])) as M.
+    cbv zeta in M. set (r1 := move_fwd (Z.to_nat (e - (pos + 1))) (pos + 1) pos (v1, L)) in *.
+    destruct M as (S2 & B2 & T2 & F2 & D2).
+    assert (I1 : vinv tr v1) by (apply vinv_smaller; [exact I | unfold e; lia]).
+    assert (I2 : vinv tr (fst r1)) by (eapply vinv_same_store; eauto).
+    assert (Sz2 : v_size (fst r1) = e - 1) by (destruct S2 as (_ & X & _); exact X).
+    assert (V2 : valid_idx (fst r1) (e - 1) = true).
+    { rewrite (same_store_valid v1 (fst r1)) by (auto; try lia; apply (vi_wf _ _ I1)). unfold v1. rewrite valid_idx_with_size.
+      apply (vinv_valid tr); [exact I | unfold e; lia]. }
+    destruct r1 as [v2 L2] eqn:ER. cbn [fst snd] in *.
+    rewrite upd_cell_valid by exact V2. cbn [fst snd]. rewrite c_destroy_cell, c_destroy_bad.
+    set (v3 := set_cell v2 (e - 1) (destroyed (get_cell v2 (e - 1)))).
+    assert (G3 : forall j, 0 <= j -> get_cell v3 j = if e - 1 =? j then destroyed (get_cell v2 (e - 1)) else get_cell v2 j).
+    { intros j Hj. unfold v3. rewrite get_set_cell by (auto; try lia; apply (vi_wf _ _ I2)). reflexivity. }
+    assert (Sz3 : v_size v3 = e - 1) by (unfold v3; rewrite set_cell_size; exact Sz2).
+    split; [eapply vinv_same_store; [apply same_store_set_cell | exact I2]|].
     split.
-    { apply abs_ext; [lia | rewrite zlen_app, zlen_firstn, zlen_skipn by (rewrite zlen_abs by lia; lia); rewrite zlen_abs by lia; lia|].
-      intros j Hj. rewrite T2 by lia. rewrite znth_app by lia. rewrite zlen_firstn by (rewrite zlen_abs by lia; lia).
-      replace (Z.max (pos + 1) (pos + Z.of_nat (Z.to_nat (v_size v - (pos + 1)))) <=? j) with false by lia. rewrite andb_false_l.
+    { apply abs_ext; [lia | rewrite zlen_app, zlen_firstn, zlen_skipn by (rewrite zlen_abs by (unfold e in *; lia); unfold e in *; lia);
+                           rewrite zlen_abs by (unfold e in *; lia); unfold e in *; lia|].
+      rewrite Sz3. intros j Hj. unfold tag_at. rewrite G3 by lia. replace (e - 1 =? j) with false by lia. fold (tag_at v2 j).
+      rewrite T2 by lia. rewrite znth_app by lia. rewrite zlen_firstn by (rewrite zlen_abs by (unfold e in *; lia); unfold e in *; lia).
+      replace (Z.max (pos + 1) (pos + Z.of_nat (Z.to_nat (e - (pos + 1)))) <=? j) with false by lia. rewrite andb_false_l.
       destruct (j <? pos) eqn:E1.
-      - replace ((pos <=? j) && (j <? pos + Z.of_nat (Z.to_nat (v_size v - (pos + 1))))) with false by lia.
-        rewrite znth_firstn, znth_abs by lia. reflexivity.
-      - replace ((pos <=? j) && (j <? pos + Z.of_nat (Z.to_nat (v_size v - (pos + 1))))) with true by lia.
-        rewrite znth_skipn, znth_abs by lia. unfold tag_at, v1. rewrite get_cell_with_size. f_equal. f_equal. lia. }
-    split; [exact B2|]. split; [destruct S2 as (X & _); exact X|]. intros; lia.
+      - replace ((pos <=? j) && (j <? pos + Z.of_nat (Z.to_nat (e - (pos + 1))))) with false by lia.
+        rewrite znth_firstn, znth_abs by (unfold e in *; lia). reflexivity.
+      - replace ((pos <=? j) && (j <? pos + Z.of_nat (Z.to_nat (e - (pos + 1))))) with true by lia.
+        rewrite znth_skipn, znth_abs by (unfold e in *; lia). unfold tag_at, v1. rewrite get_cell_with_size. f_equal. f_equal. lia. }
+    split; [reflexivity|]. split; [exact B2|].
+    split; [unfold v3; rewrite set_cell_shift; destruct S2 as (X & _); exact X|].
+    intros [CA CB].
+    assert (LV : forall j, pos <= j < pos + 1 + Z.of_nat (Z.to_nat (e - (pos + 1))) -> live_at v1 j = true).
+    { intros j Hj. unfold live_at, st_at, v1. rewrite get_cell_with_size. fold (st_at v j). rewrite CA by (unfold e in *; lia). reflexivity. }
+    destruct (D2 LV) as (DL & ST).
+    assert (ST1 : st_at v2 (e - 1) = MovedFrom).
+    { rewrite ST by lia. replace (e - 1 <? pos + Z.of_nat (Z.to_nat (e - (pos + 1)))) with false by lia.
+      replace (Z.max (pos + 1) (pos + Z.of_nat (Z.to_nat (e - (pos + 1)))) <=? e - 1) with true by lia. reflexivity. }
+    split.
+    + split; rewrite Sz3.
+      * intros j Hj. unfold st_at. rewrite G3 by lia. replace (e - 1 =? j) with false by lia. fold (st_at v2 j).
+        destruct (Z_lt_ge_dec j pos) as [Lt|Ge].
+        -- unfold st_at. rewrite F2 by lia. unfold v1. rewrite get_cell_with_size. apply CA. unfold e in *. lia.
+        -- rewrite ST by lia. replace (j <? pos + Z.of_nat (Z.to_nat (e - (pos + 1)))) with true by lia. reflexivity.
+      * intros j Hj. unfold live_at, st_at. rewrite G3 by lia. destruct (e - 1 =? j) eqn:E2.
+        -- unfold destroyed. simpl. destruct (c_st (get_cell v2 (e - 1))); reflexivity.
+        -- rewrite F2 by lia. unfold v1. rewrite get_cell_with_size. apply (CB j). unfold e in *. lia.
+    + exists 0, 1. split; [|rewrite Sz3; unfold e; lia].
+      eapply ldelta_eq; [eapply ldelta_trans; [exact DL | apply c_destroy_delta] | lia | lia].
+      fold (st_at v2 (e - 1)). rewrite ST1. reflexivity.
 Qed.
 
 Lemma erase_range_spec tr first last v L : vinv tr v -> 0 <= first <= last -> last <= v_size v ->
   let r := erase_range first last (v, L) in
   let v' := fst (fst r) in let L' := snd (fst r) in
-  vinv tr v' /\ abs v' = zfirstn first (abs v) ++ zskipn last (abs v) /\ cl_bad L' = cl_bad L /\ v_shift v' = v_shift v /\
-  (first = last \/ last = v_size v -> snd r = first /\ life_ok v L v' L').
+  vinv tr v' /\ abs v' = zfirstn first (abs v) ++ zskipn last (abs v) /\ snd r = first /\ cl_bad L' = cl_bad L /\ v_shift v' = v_shift v /\
+  life_ok v L v' L'.
 Proof.
   intros I Hf Hl. unfold erase_range, vl_size, vl_with_size. cbn [fst snd]. pose proof (vi_size _ _ I) as Sz.
   destruct (last - first =? 0) eqn:E.
   - assert (last = first) by lia. subst last. cbn [fst snd]. split; [exact I|]. split.
     { unfold zfirstn, zskipn. rewrite firstn_skipn. reflexivity. }
-    split; [reflexivity|]. split; [reflexivity|]. intros _. split; [lia | apply life_ok_refl].
-  - set (n := Z.to_nat (v_size v - last)). set (d := last - first).
+    split; [lia|]. split; [reflexivity|]. split; [reflexivity|]. apply life_ok_refl.
+  - set (sz := v_size v) in *. set (n := Z.to_nat (sz - last)). set (d := last - first).
     pose proof (move_fwd_spec d n first v L (vi_wf _ _ I) ltac:(lia) ltac:(lia)
-                  ltac:(intros j Hj; apply (vinv_valid tr); [exact I | lia])) as M.
+                  ltac:(intros j Hj; apply (vinv_valid tr); [exact I | unfold sz in *; lia])) as M.
     cbv zeta in M. replace (first + d) with last in M by lia.
     set (r1 := move_fwd n last first (v, L)) in *.
     destruct M as (S1 & B1 & T1 & F1 & D1).
     assert (I1 : vinv tr (fst r1)) by (eapply vinv_same_store; eauto).
-    assert (Sz1 : v_size (fst r1) = v_size v) by (destruct S1 as (_ & X & _); exact X).
-    assert (Sh1 : v_shift (fst r1) = v_shift v) by (destruct S1 as (X & _); exact X).
-    set (e_it := first + (v_size v - last)).
-    (* the optional destruction loop *)
-    assert (R2 : exists v2 L2, (if e_it <? last then destroy_down (Z.to_nat (last - e_it)) last r1 else r1) = (v2, L2) /\
-                 same_store (fst r1) v2 /\ cl_bad L2 = cl_bad L /\
-                 (forall j, 0 <= j -> get_cell v2 j = if (e_it <=? j) && (j <? last) then destroyed (get_cell (fst r1) j) else get_cell (fst r1) j) /\
-                 ((forall j, e_it <= j < last -> live_at (fst r1) j = true) -> ldelta (snd r1) L2 0 (Z.max 0 (last - e_it)))).
-    { destruct (e_it <? last) eqn:E2.
-      - pose proof (destroy_down_spec (Z.to_nat (last - e_it)) last (fst r1) (snd r1) (vi_wf _ _ I1) ltac:(lia)
-                      ltac:(intros j Hj; apply (vinv_valid tr); [exact I1 | lia])) as [(S2 & B2 & C2) D2].
-        destruct r1 as [v1 L1]. cbn [fst snd] in *.
-        destruct (destroy_down (Z.to_nat (last - e_it)) last (v1, L1)) as [v2 L2] eqn:ED. cbn [fst snd] in *.
-        exists v2, L2. split; [reflexivity|]. split; [exact S2|]. split; [congruence|]. split.
-        + intros j Hj. rewrite C2 by exact Hj. replace (last - Z.of_nat (Z.to_nat (last - e_it))) with e_it by lia. reflexivity.
-        + intros Lv. eapply ldelta_eq; [apply D2 | reflexivity | lia]. intros j Hj. apply Lv. lia.
-      - destruct r1 as [v1 L1]. cbn [fst snd] in *. exists v1, L1. split; [reflexivity|]. split; [apply same_store_refl|].
-        split; [exact B1|]. split.
-        + intros j Hj. replace ((e_it <=? j) && (j <? last)) with false by lia. reflexivity.
-        + intros _. replace (Z.max 0 (last - e_it)) with 0 by lia. apply ldelta_refl. }
-    destruct R2 as (v2 & L2 & ER & S2 & B2 & C2 & D2). fold e_it. rewrite ER. cbn [fst snd].
+    assert (Sz1 : v_size (fst r1) = sz) by (destruct S1 as (_ & X & _); exact X).
+    replace (sz - (first + (sz - last))) with d by lia.
+    pose proof (destroy_down_spec (Z.to_nat d) sz (fst r1) (snd r1) (vi_wf _ _ I1) ltac:(lia)
+                  ltac:(intros j Hj; apply (vinv_valid tr); [exact I1 | lia])) as [(S2 & B2 & C2) D2].
+    destruct r1 as [v1 L1] eqn:ER. cbn [fst snd] in *.
+    destruct (destroy_down (Z.to_nat d) sz (v1, L1)) as [v2 L2] eqn:ED. cbn [fst snd] in *.
+    replace (sz - Z.of_nat (Z.to_nat d)) with (sz - d) in * by lia.
     assert (I2 : vinv tr v2) by (eapply vinv_same_store; eauto).
-    assert (Sz2 : v_size v2 = v_size v) by (destruct S2 as (_ & X & _); lia).
+    assert (Sz2 : v_size v2 = sz) by (destruct S2 as (_ & X & _); lia).
     split; [apply vinv_smaller; [exact I2 | lia]|].
     split.
-    { apply abs_ext; [simpl; lia | rewrite zlen_app, zlen_firstn, zlen_skipn by (rewrite zlen_abs by lia; lia); rewrite zlen_abs by lia; simpl; lia|].
+    { apply abs_ext; [simpl; lia | rewrite zlen_app, zlen_firstn, zlen_skipn by (rewrite zlen_abs by lia; unfold sz in *; lia);
+                                   rewrite zlen_abs by lia; simpl; unfold sz in *; lia|].
       simpl v_size. intros j Hj. unfold tag_at. rewrite get_cell_with_size, C2 by lia.
-      replace ((e_it <=? j) && (j <? last)) with false by lia. fold (tag_at (fst r1) j). rewrite T1 by lia.
-      rewrite znth_app by lia. rewrite zlen_firstn by (rewrite zlen_abs by lia; lia).
+      replace ((sz - d <=? j) && (j <? sz)) with false by lia. fold (tag_at v1 j). rewrite T1 by lia.
+      rewrite znth_app by lia. rewrite zlen_firstn by (rewrite zlen_abs by lia; unfold sz in *; lia).
       replace (Z.max last (first + Z.of_nat n) <=? j) with false by lia. rewrite andb_false_l.
       destruct (j <? first) eqn:E1.
-      - replace ((first <=? j) && (j <? first + Z.of_nat n)) with false by lia. rewrite znth_firstn, znth_abs by lia. reflexivity.
+      - replace ((first <=? j) && (j <? first + Z.of_nat n)) with false by lia. rewrite znth_firstn, znth_abs by (unfold sz in *; lia). reflexivity.
       - replace ((first <=? j) && (j <? first + Z.of_nat n)) with true by lia.
-        rewrite znth_skipn, znth_abs by lia. unfold tag_at. f_equal. f_equal. lia. }
-    split; [exact B2|]. split; [simpl; destruct S2 as (X & _); lia|].
-    intros [Heq|Heq]; [lia|]. subst last.
-    (* nothing to move: the erased range is the tail *)
-    assert (n = 0%nat) by lia. split; [unfold e_it; lia|].
+        rewrite znth_skipn, znth_abs by (unfold sz in *; lia). unfold tag_at. f_equal. f_equal. lia. }
+    split; [reflexivity|]. split; [congruence|]. split; [simpl; destruct S2 as (X & _); destruct S1 as (Y & _); lia|].
     intros [CA CB].
-    assert (G1 : forall j, 0 <= j -> get_cell (fst r1) j = get_cell v j).
-    { intros j Hj. unfold r1. rewrite H. reflexivity. }
-    assert (EL : snd r1 = L) by (unfold r1; rewrite H; reflexivity).
+    assert (LV : forall j, first <= j < last + Z.of_nat n -> live_at v j = true).
+    { intros j Hj. unfold live_at. rewrite CA by (unfold sz in *; lia). reflexivity. }
+    destruct (D1 LV) as (DL & ST).
+    assert (LV1 : forall j, first <= j < sz -> live_at v1 j = true).
+    { intros j Hj. unfold live_at. rewrite ST by lia. ifs; try reflexivity. fold (live_at v j). apply LV. lia. }
     split.
     + split; simpl v_size.
-      * intros j Hj. unfold st_at. rewrite get_cell_with_size, C2 by lia. replace ((e_it <=? j) && (j <? v_size v)) with false by lia.
-        rewrite G1 by lia. apply CA. lia.
+      * intros j Hj. unfold st_at. rewrite get_cell_with_size, C2 by lia. replace ((sz - d <=? j) && (j <? sz)) with false by lia.
+        fold (st_at v1 j). destruct (Z_lt_ge_dec j first) as [Lt|Ge].
+        -- unfold st_at. rewrite F1 by lia. apply CA. unfold sz in *. lia.
+        -- rewrite ST by lia. replace (j <? first + Z.of_nat n) with true by lia. reflexivity.
       * intros j Hj. unfold live_at, st_at. rewrite get_cell_with_size, C2 by lia.
-        destruct ((e_it <=? j) && (j <? v_size v)) eqn:E3.
-        -- unfold destroyed. simpl. destruct (c_st (get_cell (fst r1) j)); reflexivity.
-        -- rewrite G1 by lia. apply (CB j). lia.
-    + exists 0, (v_size v - first). split; [|simpl; lia]. rewrite <- EL.
-      eapply ldelta_eq; [apply D2 | reflexivity | unfold e_it; lia].
-      intros j Hj. unfold live_at, st_at. rewrite G1 by lia. fold (st_at v j). rewrite CA by (unfold e_it in Hj; lia). reflexivity.
+        destruct ((sz - d <=? j) && (j <? sz)) eqn:E3.
+        -- unfold destroyed. simpl. destruct (c_st (get_cell v1 j)); reflexivity.
+        -- rewrite F1 by lia. apply (CB j). unfold sz in *. lia.
+    + exists 0, d. split; [|simpl; unfold sz; lia].
+      eapply ldelta_eq; [eapply ldelta_trans; [exact DL | apply D2] | lia | lia].
+      intros j Hj. apply LV1. lia.
 Qed.
 
 (* ------------------------------------------------------------------------------------------------ insert *)
 Lemma loop_res_vinv tr v L r g : vinv tr v -> loop_res v L r g -> vinv tr (fst r).
 Proof. intros I (S & _). eapply vinv_same_store; eauto. Qed.
 
-(* insert(pos, value): contents and position as std::vector (the lifetimes are not: see C32_refuted_insert) *)
+(* insert(pos, value): contents, position and lifetimes as std::vector *)
 Lemma insert_one_spec tr max_n k pos t v L : fits tr max_n -> vinv tr v -> 0 <= pos <= v_size v -> v_size v + 1 <= max_n ->
   let r := insert_one tr k pos t (v, L) in
   let v' := fst (fst r) in let L' := snd (fst r) in
-  vinv tr v' /\ abs v' = zfirstn pos (abs v) ++ t :: zskipn pos (abs v) /\ snd r = pos /\ cl_bad L' = cl_bad L /\ v_shift v' = v_shift v.
+  vinv tr v' /\ abs v' = zfirstn pos (abs v) ++ t :: zskipn pos (abs v) /\ snd r = pos /\ cl_bad L' = cl_bad L /\ v_shift v' = v_shift v /\
+  life_ok v L v' L'.
 Proof.
   intros F I Hp Hn. unfold insert_one, vl_size, vl_with_size. cbn [fst snd].
   pose proof (alloc_at_spec tr max_n v L F I Hn) as A. cbv zeta in A.
@@ -806,20 +827,21 @@ Proof.
   pose proof (move_bwd_spec 1 (Z.to_nat (v_size v - pos)) (v_size v) v2 L2 (vi_wf _ _ I2) ltac:(lia) ltac:(lia)
                 ltac:(intros j Hj; apply (vinv_valid tr); [exact I2 | lia])) as M.
   cbv zeta in M. set (r3 := move_bwd (Z.to_nat (v_size v - pos)) (v_size v) (v_size v + 1) (v2, L2)) in *.
-  destruct M as (S3 & B3 & T3 & F3 & _).
+  destruct M as (S3 & B3 & T3 & F3 & D3).
   assert (I3 : vinv tr (fst r3)) by (eapply vinv_same_store; eauto).
   assert (Sz3 : v_size (fst r3) = v_size v + 1) by (destruct S3 as (_ & X & _); lia).
   destruct r3 as [v3 L3] eqn:E3. cbn [fst snd] in *.
   assert (V3 : valid_idx v3 pos = true) by (apply (vinv_valid tr); [exact I3 | lia]).
-  rewrite upd_cell_valid by exact V3. cbn [fst snd]. rewrite c_construct_cell, c_construct_bad.
-  set (v4 := set_cell v3 pos (mkCell Alive t)).
+  rewrite upd_cell_valid by exact V3. cbn [fst snd]. rewrite c_assign_cell, c_assign_bad.
+  set (v4 := set_cell v3 pos (assigned t (get_cell v3 pos))).
+  assert (G4 : forall j, 0 <= j -> get_cell v4 j = if pos =? j then assigned t (get_cell v3 pos) else get_cell v3 j).
+  { intros j Hj. unfold v4. rewrite get_set_cell by (auto; try lia; apply (vi_wf _ _ I3)). reflexivity. }
+  assert (Sz4 : v_size v4 = v_size v + 1) by (unfold v4; rewrite set_cell_size; exact Sz3).
   split; [eapply vinv_same_store; [apply same_store_set_cell | exact I3]|].
   split.
-  { apply abs_ext; [unfold v4; rewrite set_cell_size; lia | |].
-    - rewrite zlen_app, zlen_cons, zlen_firstn, zlen_skipn by (rewrite zlen_abs by lia; lia). rewrite zlen_abs by lia.
-      unfold v4. rewrite set_cell_size. lia.
-    - unfold v4 at 1. rewrite set_cell_size, Sz3. intros j Hj. unfold tag_at, v4.
-      rewrite get_set_cell by (auto; try lia; apply (vi_wf _ _ I3)).
+  { apply abs_ext; [lia | |].
+    - rewrite zlen_app, zlen_cons, zlen_firstn, zlen_skipn by (rewrite zlen_abs by lia; lia). rewrite zlen_abs by lia. lia.
+    - rewrite Sz4. intros j Hj. unfold tag_at. rewrite G4 by lia.
       rewrite znth_app by lia. rewrite zlen_firstn by (rewrite zlen_abs by lia; lia).
       destruct (pos =? j) eqn:E1.
       + replace (j <? pos) with false by lia. rewrite znth_cons by lia. replace (j - pos =? 0) with true by lia. reflexivity.
@@ -833,7 +855,28 @@ Proof.
           rewrite znth_cons by lia. replace (j - pos =? 0) with false by lia. rewrite znth_skipn, znth_abs by lia.
           unfold tag_at. f_equal. f_equal. lia. }
   split; [reflexivity|]. split; [rewrite B3; unfold L2; apply c_construct_bad|].
-  unfold v4. rewrite set_cell_shift. destruct S3 as (X & _). rewrite X. unfold v2. rewrite set_cell_shift. exact Sh1.
+  split; [unfold v4; rewrite set_cell_shift; destruct S3 as (X & _); rewrite X; unfold v2; rewrite set_cell_shift; exact Sh1|].
+  intros [CA CB].
+  assert (LV2 : forall j, v_size v - Z.of_nat (Z.to_nat (v_size v - pos)) <= j < v_size v + 1 -> live_at v2 j = true).
+  { intros j Hj. unfold live_at, st_at. rewrite G2 by lia. destruct (v_size v =? j) eqn:E1; [reflexivity|].
+    fold (st_at v j). rewrite CA by lia. reflexivity. }
+  destruct (D3 LV2) as (DL3 & ST3).
+  assert (LP : live_at v3 pos = true).
+  { unfold live_at. rewrite ST3 by lia. ifs; try reflexivity. fold (live_at v2 pos). apply LV2. lia. }
+  split.
+  - split; rewrite Sz4.
+    + intros j Hj. unfold st_at. rewrite G4 by lia. destruct (pos =? j) eqn:E1.
+      * unfold assigned. simpl. unfold live_at, st_at in LP. rewrite LP. reflexivity.
+      * fold (st_at v3 j). destruct (Z_lt_ge_dec j pos) as [Lt|Ge].
+        -- unfold st_at. rewrite F3 by lia. rewrite G2 by lia. replace (v_size v =? j) with false by lia. apply CA. lia.
+        -- rewrite ST3 by lia. replace (v_size v + 1 - Z.of_nat (Z.to_nat (v_size v - pos)) <=? j) with true by lia. reflexivity.
+    + intros j Hj. unfold live_at, st_at. rewrite G4 by lia. replace (pos =? j) with false by lia.
+      rewrite F3 by lia. rewrite G2 by lia. replace (v_size v =? j) with false by lia. apply (CB j). lia.
+  - exists 1, 0. split; [|lia].
+    eapply ldelta_eq; [eapply ldelta_trans; [apply (c_construct_delta KValue 0 (get_cell v1 (v_size v)) L) |
+                                             eapply ldelta_trans; [exact DL3 | apply c_assign_delta]] | lia | lia].
+    + rewrite C1. apply (CB (v_size v)). lia.
+    + exact LP.
 Qed.
 
 Lemma insert_list_spec tr max_n pos tags v L : fits tr max_n -> vinv tr v -> 0 <= pos <= v_size v -> v_size v + zlen tags <= max_n ->
